@@ -30,6 +30,48 @@ func oracleFresh(inner ...Oracle) Oracle {
 				return v
 			}
 		}
-		return nil
+		return coldHandleReads(w)
 	}}
+}
+
+// coldHandleReads: a new instance on a copy of the storage that has NOT loaded anything (no Load, no version query)
+// hands out every retained version with GetImmutable (newest first); the contents are read by tree walk, by key and
+// by iteration. Whatever the instance caches lazily (first / latest version, storage version) is still unset.
+func coldHandleReads(w *World) *Violation {
+	st := w.VS.Clone()
+	m := w.M
+	cw := &World{Cfg: w.Cfg, Base: st, DB: st, VS: st, M: m.Clone(), exps: map[int64][]*iavl.Exporter{}}
+	cw.Tree = cw.open(w.Cfg)
+	defer cw.Close()
+	for _, ver := range m.VersionsDesc() {
+		it, err := cw.Tree.GetImmutable(ver)
+		if err != nil {
+			return viol("cold-handle", "GetImmutable(%d) on an instance that has not loaded anything: %v", ver, err)
+		}
+		want := modelPairs(m.Conts[ver])
+		if it.Size() != int64(len(want)) {
+			return viol("cold-handle", "GetImmutable(%d) on an instance that has not loaded anything: Size() = %d, model %d", ver, it.Size(), len(want))
+		}
+		for _, p := range want {
+			_, v, err := it.GetWithIndex(p.k)
+			if err != nil || !beq(v, p.v) || v == nil {
+				return viol("cold-handle", "GetImmutable(%d).GetWithIndex(%q) on an instance that has not loaded anything = %q, %v; model %q", ver, p.k, v, err, p.v)
+			}
+			g, err := it.Get(p.k)
+			if err != nil || !beq(g, p.v) || g == nil {
+				return viol("cold-handle", "GetImmutable(%d).Get(%q) on an instance that has not loaded anything = %q, %v; model %q", ver, p.k, g, err, p.v)
+			}
+		}
+		var got []kvp
+		if _, err := it.Iterate(func(k, v []byte) bool {
+			got = append(got, kvp{append([]byte{}, k...), append([]byte{}, v...)})
+			return false
+		}); err != nil {
+			return viol("cold-handle", "GetImmutable(%d).Iterate on an instance that has not loaded anything: %v", ver, err)
+		}
+		if d := diffPairs(got, want); d != "" {
+			return viol("cold-handle", "GetImmutable(%d).Iterate on an instance that has not loaded anything: %s", ver, d)
+		}
+	}
+	return nil
 }
